@@ -35,8 +35,10 @@ import (
 	"os"
 	"runtime"
 	"strconv"
+	"sync/atomic"
 	"testing"
 	"testing/synctest"
+	"time"
 
 	"github.com/fogfish/golem/pipe/v2"
 )
@@ -293,7 +295,22 @@ func runQueue(rng *rand.Rand, n int) (ops [][]int) {
 	return
 }
 
+// wall-clock watchdog (outside every synctest bubble): a library goroutine that spins keeps its bubble from ever
+// becoming idle, so the case would hang until the test timeout; it is reported as a crash of the case instead
+var caseStart atomic.Int64
+
+func watchdog(limit time.Duration) {
+	for {
+		time.Sleep(500 * time.Millisecond)
+		if t0 := caseStart.Load(); t0 != 0 && time.Since(time.Unix(0, t0)) > limit {
+			fmt.Fprintf(os.Stderr, "panic: watchdog: the case did not finish within %v of real time (a goroutine spins or never lets the bubble idle)\n", limit)
+			os.Exit(2)
+		}
+	}
+}
+
 func TestC08(t *testing.T) {
+	go watchdog(20 * time.Second)
 	seed, _ := strconv.ParseInt(os.Getenv("VERIF_SEED"), 10, 64)
 	rng := rand.New(rand.NewSource(seed))
 	from, _ := strconv.Atoi(os.Getenv("VERIF_FROM"))
@@ -314,6 +331,8 @@ func TestC08(t *testing.T) {
 			return
 		}
 		emitLine(&Line{Begin: &i, Layer: "pump", Kind: kind, Cap: capacity, Plan: plan})
+		caseStart.Store(time.Now().UnixNano())
+		defer caseStart.Store(0)
 		var tr func(Step)
 		if trace {
 			tr = func(s Step) { emitLine(&Line{Trace: &i, Step: &s}) }
